@@ -355,7 +355,7 @@ impl C15 {
         c
     }
     fn gen_plain(g: &mut Gen, _tier: Tier) -> DispatchCase {
-        gen_dispatch_case(g, 1, &CorridorOpts { max_stages: 9, p_branch: 0.4, p_short_east: 0.08, p_short_ends: std::env::var("VERIF_SHORT_ENDS").ok().and_then(|s| s.parse().ok()).unwrap_or(0.12), ..Default::default() })
+        gen_dispatch_case(g, 1, &CorridorOpts { max_stages: 9, p_branch: 0.4, p_bypass: 0.3, p_short_east: 0.08, p_short_ends: std::env::var("VERIF_SHORT_ENDS").ok().and_then(|s| s.parse().ok()).unwrap_or(0.12), ..Default::default() })
     }
     fn check(case: &DispatchCase, cx: &mut Ctx) {
         scenario_labels(case, cx);
